@@ -102,7 +102,7 @@ func genPar(t *rapid.T, label string) Op {
 		case "superset":
 			r.Scope = rapid.SampledFrom([]string{"superset", "superset", "disjoint", "widenback", "orig"}).Draw(t, l+"badscope")
 		case "wrong-creds":
-			r.Pres = rapid.SampledFrom(badPres).Draw(t, l+"pres")
+			r.Pres = rapid.SampledFrom(anyBadPres).Draw(t, l+"pres")
 		case "other-router":
 			r.Legacy = !first.Legacy
 		case "other-lineage":
